@@ -10,7 +10,7 @@ from .. import flow
 from ..cfg import cfg_of
 from ..linexpr import Env, Konst, Lin, NONE, Seq, fresh, local_edges, loop_heads, paths_from, run_steps, segments
 from ..model import UNKNOWN, AnchorError, Class, Func, UnknownIdiom, dotted, local_names, short, unparse
-from .common import ancestors, enclosing_map, implied, strip_await, walk_self
+from .common import ancestors, enclosing_map, implied, nodes_within, strip_await, walk_self
 
 WSGI = 'falcon.stream.BoundedStream'
 ASGI = 'falcon.asgi.stream.BoundedStream'
@@ -83,10 +83,12 @@ def dealiased_view(p, cls: Class, inner_methods=()) -> Class:
     exhaust()).  A local qualifies when it is bound exactly once in the method, by a plain assignment, is no parameter, and
     the expression bound is stable for the duration of the call:
       * `self.<m>` with <m> a plain method of the class that nothing in the class stores into;
-      * `self.<a>.<name>` with <a> an attribute that only the constructor stores, and the local used only as a callee
-        (or <name> one of `inner_methods`, names known to be methods of the wrapped object: then the local may also be
-        handed on as a callback, `target = self.stream.read; self._read(size, target)`);
-      * `<local>.<name>` with <local> a parameter / local that is itself bound at most once, the local used only as a callee.
+      * `self.<a>` / `self.<a>.<name>` with <a> an attribute that only the constructor stores, and the local used only as
+        a callee (or <name> one of `inner_methods`, names known to be methods of the wrapped object: then the local may
+        also be handed on as a callback, `target = self.stream.read; self._read(size, target)`);
+      * `<local>.<name>` with the local used only as a callee and <local> a parameter / local that no statement reachable
+        from the assignment binds again (the CFG decides: `chunks = [...]` in both arms of an `if` BEFORE
+        `append = chunks.append` is fine).
     The assignment becomes `pass`, every load of the local the expression.  Methods without such a local are shared with the
     class; `cls` itself is returned when no method has one."""
     import copy
@@ -104,7 +106,7 @@ def dealiased_view(p, cls: Class, inner_methods=()) -> Class:
         if reflective or not any(isinstance(x, (ast.Assign, ast.AnnAssign)) and isinstance(getattr(x, 'value', None), ast.Attribute)
                                  for x in ast.walk(f.node)):
             continue
-        node = copy.deepcopy(f.node)
+        node = f.node
         counts = _binding_counts(node)
         params = {a.arg for a in ast.walk(node.args) if isinstance(a, ast.arg)}
         parent = enclosing_map(node)
@@ -124,18 +126,24 @@ def dealiased_view(p, cls: Class, inner_methods=()) -> Class:
             ok = False
             if ch is not None and ch.count('.') == 1 and ch.startswith('self.'):
                 m = cls.methods.get(e.attr)
-                ok = m is not None and not m.is_property() and not m.is_setter() and not any(
-                    d in ('staticmethod', 'classmethod') for d in m.decorators) and e.attr not in stored_any
+                if m is not None:
+                    ok = not m.is_property() and not m.is_setter() and not any(
+                        d in ('staticmethod', 'classmethod') for d in m.decorators) and e.attr not in stored_any
+                else:
+                    ok = only_called and e.attr not in stored_later and e.attr in stored_any
             elif ch is not None and ch.count('.') == 2 and ch.startswith('self.'):
                 a = e.value.attr
                 ok = (only_called or e.attr in inner_methods) and a not in stored_later and a not in cls.methods
             elif isinstance(e.value, ast.Name) and e.value.id != 'self':
                 base = e.value.id
-                ok = only_called and base != L and (counts.get(base, 0) == 1 or (base in params and counts.get(base, 0) == 0))
+                ok = only_called and base != L and _not_rebound_after(p, f, st, base)
             if ok:
                 aliases[L] = (e, st)
         if not aliases:
             continue
+        new = copy.deepcopy(node)
+        twin = {id(a): b for a, b in zip(ast.walk(node), ast.walk(new))}
+        drop = {id(twin[id(st)]) for _e, st in aliases.values()}
 
         class _Sub(ast.NodeTransformer):
             def visit_Name(self, x):
@@ -144,12 +152,12 @@ def dealiased_view(p, cls: Class, inner_methods=()) -> Class:
                 return x
 
             def generic_visit(self, x):
-                if any(x is st for _e, st in aliases.values()):
+                if id(x) in drop:
                     return ast.copy_location(ast.Pass(), x)
                 return super().generic_visit(x)
 
-        node = ast.fix_missing_locations(_Sub().visit(node))
-        g = Func(node, f.qual, f.module, f.cls, f.parent)
+        new = ast.fix_missing_locations(_Sub().visit(new))
+        g = Func(new, f.qual, f.module, f.cls, f.parent)
         g.nested = f.nested
         g.origin = f
         g.dealiased = sorted(aliases)
@@ -164,6 +172,46 @@ def dealiased_view(p, cls: Class, inner_methods=()) -> Class:
                 g.cls = view
     cache[cls.qual] = view
     return view
+
+
+def _not_rebound_after(p, f: Func, st, base: str) -> bool:
+    """No CFG node reachable from the statement `st` of f binds the local `base` (again)."""
+    if any(isinstance(x, (ast.Global, ast.Nonlocal)) and base in x.names for x in ast.walk(f.node)):
+        return False
+    for x in ast.walk(f.node):
+        # a binding of `base` by anything but a plain statement (loop / with / except target, walrus, nested scope) is not followed
+        if isinstance(x, ast.NamedExpr) and isinstance(x.target, ast.Name) and x.target.id == base:
+            return False
+        if isinstance(x, (ast.For, ast.AsyncFor, ast.comprehension)) and any(isinstance(y, ast.Name) and y.id == base for y in ast.walk(x.target)):
+            return False
+        if isinstance(x, (ast.With, ast.AsyncWith)) and any(it.optional_vars is not None and any(
+                isinstance(y, ast.Name) and y.id == base for y in ast.walk(it.optional_vars)) for it in x.items):
+            return False
+        if isinstance(x, ast.ExceptHandler) and x.name == base:
+            return False
+        if isinstance(x, (ast.FunctionDef, ast.AsyncFunctionDef, ast.ClassDef, ast.Lambda)) and x is not f.node and any(
+                (isinstance(y, ast.Name) and y.id == base and isinstance(y.ctx, (ast.Store, ast.Del))) or (isinstance(y, ast.arg) and y.arg == base)
+                for y in ast.walk(x)):
+            return False
+    cfg = cfg_of(f, p)
+    ids = cfg.nodes_for(st)
+    if not ids:
+        return False
+    after = flow.reachable(cfg, [y for i in ids for (y, _l) in cfg.succ[i]])
+    for n in cfg.live_nodes():
+        if n.id in after and any(isinstance(y, ast.Name) and y.id == base and isinstance(y.ctx, (ast.Store, ast.Del)) for y in n.walk()):
+            return False
+    return True
+
+
+def asgi_cls(p) -> Class:
+    """The ASGI wrapper class, locals that are bound methods written out again (`append = chunks.append`)."""
+    return dealiased_view(p, p.cls(ASGI))
+
+
+def asgi_func(p, name: str) -> Func:
+    p.func('%s.%s' % (ASGI, name))          # anchor
+    return asgi_cls(p).methods[name]
 
 
 class Verdicts:
@@ -324,16 +372,31 @@ def _on_call(env, call):
     if isinstance(f, ast.Attribute) and f.attr == 'append' and isinstance(f.value, ast.Name) and len(call.args) == 1:
         env.log.append(('hand', env.eval(call.args[0]), call))
         return NONE
+    if _is_body_get(call):
+        # `event.get('body', b'')`: the body when there is one, else nothing -- read as event['body'] of ANY length >= 0
+        # (the obligations are proved for every length, 0 included, which is what a missing key amounts to)
+        base = env.eval(f.value)
+        if isinstance(base, Lin) and base.lone() is not None:
+            env.ghost['body_read'] = True
+            return Lin.atom(('sub', base.lone(), 'body'))
     if isinstance(f, ast.Attribute) and f.attr == 'get' and call.args and _const_key(call.args[0]) is not None:
         base = env.eval(f.value)
         dflt = env.eval(call.args[1]) if len(call.args) > 1 else NONE
         falsy = dflt is NONE or (isinstance(dflt, Lin) and dflt.is_const and not dflt.c) or (isinstance(dflt, Seq) and dflt.length == Lin.const(0))
         if isinstance(base, Lin) and base.lone() is not None and falsy and call.args[0].value != 'body':
             return Lin.atom(('sub', base.lone(), call.args[0].value))
-    if isinstance(f, ast.Attribute) and dotted(f.value) == 'self':
+    if (isinstance(f, ast.Attribute) and dotted(f.value) == 'self') or any(
+            dotted(a) == 'self' for a in list(call.args) + [k.value for k in call.keywords]):
+        # a method of the wrapper, or a function that is handed the wrapper: may move budget / position / buffer
         env.log.append(('selfcall', None, call))
         env.havoc([BUDGET, POS, 'self._buffer'], 'after ' + short(call, 30))
     return None
+
+
+def _is_body_get(call) -> bool:
+    """`<x>.get('body', b'')`: the default is the empty bytes constant."""
+    return (isinstance(call, ast.Call) and isinstance(call.func, ast.Attribute) and call.func.attr == 'get' and len(call.args) == 2
+            and not call.keywords and _const_key(call.args[0]) == 'body' and isinstance(call.args[1], ast.Constant) and call.args[1].value == b'')
 
 
 def _reads_key(n, key):
@@ -381,13 +444,16 @@ def _counter(f, lp):
     """The local compared with a parameter in the loop condition (bytes gathered so far vs requested size)."""
     params = set(f.params())
     found = []
-    for c in walk_self(lp.test):
+    # the loop condition, and the tests of `if ...: break` statements standing directly in the loop body
+    # (`while budget > 0 and got < size:` written as `while budget > 0: if got >= size: break`)
+    tests = [lp.test] + [s.test for s in lp.body if isinstance(s, ast.If) and not s.orelse and len(s.body) == 1 and isinstance(s.body[0], ast.Break)]
+    for c in (x for t in tests for x in walk_self(t)):
         if isinstance(c, ast.Compare) and len(c.ops) == 1:
             a, b = c.left, c.comparators[0]
             for x, y in ((a, b), (b, a)):
                 if isinstance(x, ast.Name) and x.id not in params and isinstance(y, ast.Name) and y.id in params:
                     found.append(x.id)
-    if len(found) > 1:
+    if len(set(found)) > 1:
         raise UnknownIdiom('%s: several counters in the loop condition' % f.qual)
     return found[0] if found else None
 
@@ -398,7 +464,7 @@ def asgi_loops(run, v: Verdicts, f, mode):
     cfg = cfg_of(f, p)
     run.use_cfg(cfg)
     heads = loop_heads(cfg)
-    inl = Inliner(p, p.cls(ASGI), lambda h: not _has_receive_call(h))
+    inl = Inliner(p, asgi_cls(p), lambda h: not _has_receive_call(h))
     for lp in _receive_loops(f):
         hs = [i for i in cfg.nodes_for(lp) if cfg.node(i).kind == 'test' and cfg.node(i).ast is lp.test]
         if len(hs) != 1:
@@ -421,6 +487,7 @@ def asgi_loops(run, v: Verdicts, f, mode):
             # judged by the termination rule (R5 'loop-condition' / 'loop-boundary'); there is no path to judge here.
             continue
         n_paths = 0
+        inside = nodes_within(cfg, [lp])
         for steps, end in paths_from(cfg, head, heads, local_edges(cfg)):
             if steps[0][1] != 'T':
                 continue
@@ -428,6 +495,11 @@ def asgi_loops(run, v: Verdicts, f, mode):
                 raise UnknownIdiom('%s: nested loop inside the receive loop' % f.qual)
             if _spurious_lookup_error(cfg, steps):
                 continue
+            # a path that leaves the loop before it receives anything (`if got >= size: break`) is judged up to there
+            left = next((i for i, (nid, _l) in enumerate(steps) if nid not in inside), None)
+            early_exit = left is not None and not any(is_receive_call(c) for nid, _l in steps[:left] for c in cfg.node(nid).walk())
+            if early_exit:
+                steps = steps[:left]
             env = seed_module_ints(p, f, _Env(_on_call_inl))
             rem0 = env.declare(BUDGET, 'nat')
             pos0 = env.declare(POS, 'nat')
@@ -435,6 +507,10 @@ def asgi_loops(run, v: Verdicts, f, mode):
                 n_paths += 1
                 ev = e.ghost.get('event')
                 if ev is None:
+                    # a way OUT of the loop taken before anything is received (`if got >= size: break`): no event, nothing
+                    # to conserve -- provided the path really does nothing (no store to budget / position, nothing handed on)
+                    if early_exit and not e.log and Env.same(e.eval(_BUDGET_E), rem0) and Env.same(e.eval(_POS_E), pos0):
+                        continue
                     raise UnknownIdiom('%s: a loop-body path without `await %s()`' % (f.qual, RECEIVE))
                 calls = [short(n, 40) for k, _v, n in e.log if k == 'selfcall']
                 if calls:
@@ -455,8 +531,8 @@ def asgi_loops(run, v: Verdicts, f, mode):
                 lc = Lin.atom(('len', ('sub', ev, 'body')))
                 body_read = e.ghost.get('body_read', False)
                 got0, last = _handed(e)
-                if not body_read:
-                    _bodyless_event(v, f, cfg, steps, e, wit)
+                if not body_read and _bodyless_event(v, f, cfg, steps, e, wit) is False:
+                    continue            # the body is obtained in a way that is not read: nothing is concluded from this path
                 pos_end = e.eval(_POS_E)
                 if not isinstance(pos_end, Lin):
                     raise UnknownIdiom('%s: the position is not a number at the end of a loop-body path' % f.qual)
@@ -574,14 +650,23 @@ def _plain_budget_atom(a) -> bool:
 DISCONNECT = 'http.disconnect'
 
 
+REQUEST = 'http.request'
+_FLIP = {ast.Eq: ast.NotEq, ast.NotEq: ast.Eq}
+
+
 def _is_type_compare(a, ops):
-    """`<event>['type'] <op> 'http.disconnect'` (either order) with op among `ops`."""
-    if not (isinstance(a, ast.Compare) and len(a.ops) == 1 and isinstance(a.ops[0], ops)):
+    """`<event>['type'] <op> 'http.disconnect'` (either order) with op among `ops`.  The receive channel of an HTTP scope
+    carries exactly two event types (ASGI HTTP spec: http.request, http.disconnect), so `<event>['type'] != 'http.request'`
+    reads as `== 'http.disconnect'` and vice versa."""
+    if not (isinstance(a, ast.Compare) and len(a.ops) == 1 and isinstance(a.ops[0], (ast.Eq, ast.NotEq))):
         return False
     x, y = a.left, a.comparators[0]
     for s, c in ((x, y), (y, x)):
-        if isinstance(s, ast.Subscript) and _const_key(s.slice) == 'type' and isinstance(c, ast.Constant) and c.value == DISCONNECT:
-            return True
+        if isinstance(s, ast.Subscript) and _const_key(s.slice) == 'type' and isinstance(c, ast.Constant):
+            if c.value == DISCONNECT:
+                return isinstance(a.ops[0], ops)
+            if c.value == REQUEST:
+                return issubclass(_FLIP[type(a.ops[0])], ops)
     return False
 
 
@@ -617,10 +702,10 @@ def _bodyless_event(v: Verdicts, f, cfg, steps, e, wit):
         if n.kind in ('stmt', 'test') and any(isinstance(c, ast.Call) and isinstance(c.func, ast.Attribute) and c.func.attr in ('get', 'pop')
                                                and c.args and _const_key(c.args[0]) == 'body' for c in n.walk()):
             v.unknown("%s: the event's body is obtained through `%s`" % (f.qual, short(n.ast, 40)))
-            return
+            return False
     if keyless or disconnect:
         v.note(f, 'event classification', what, True)
-        return
+        return True
     cons = ('if ' + unparse(other)) if other is not None else 'event = await %s()' % RECEIVE
     v.note(f, 'event classification', what, False, cons,
            "a path through the receive loop leaves event['body'] unread although nothing on it says that the event is a disconnect "
@@ -1138,7 +1223,7 @@ def asgi_drained(run, v: Verdicts, f):
     cfg = cfg_of(f, p)
     note_receive_aliases(f)
     run.use_cfg(cfg)
-    inl = Inliner(p, p.cls(ASGI), lambda h: not _has_receive_call(h))
+    inl = Inliner(p, asgi_cls(p), lambda h: not _has_receive_call(h))
     heads = set(loop_heads(cfg))
     segs = [(s, st, e) for (s, st, e) in segments(cfg) if e in heads or e == cfg.exit]
     produces = any(isinstance(x, (ast.Yield, ast.YieldFrom)) or (isinstance(x, ast.Return) and x.value is not None) for x in walk_self(f.node))
@@ -1270,6 +1355,15 @@ def _memo(run, f, wrapper):
     run.use_cfg(cfg)
     rets = [r for r in walk_self(f.node) if isinstance(r, ast.Return) and r.value is not None]
     memos = {dotted(r.value) for r in rets if (dotted(r.value) or '').startswith('self.')}
+    if len(memos) != 1:
+        # the memo held in a local on the way (`stream = self._memo; if stream is None: stream = self._memo = build(); return stream`):
+        # the one attribute of self the accessor stores
+        memos = {dotted(t) for x in walk_self(f.node) if isinstance(x, (ast.Assign, ast.AnnAssign))
+                 for t in (x.targets if isinstance(x, ast.Assign) else [x.target]) if isinstance(t, ast.Attribute) and dotted(t.value) == 'self'}
+    if len(memos) != 1 and f.cls is not None:
+        # ... or (the store forgotten) the one data attribute of self it reads
+        memos = {dotted(x) for x in walk_self(f.node) if isinstance(x, ast.Attribute) and isinstance(x.ctx, ast.Load) and dotted(x.value) == 'self'
+                 and p.lookup_method(f.cls.qual, x.attr) is None}
     if len(memos) != 1:
         raise UnknownIdiom('%s: does not return a single memo attribute' % f.qual)
     memo = memos.pop()
@@ -1770,14 +1864,24 @@ class Inliner:
     def _inlinable(self, h: Func) -> bool:
         if h.qual not in self._ok:
             a = h.node.args
+            # a method / property of the class (first parameter `self`), a @staticmethod of the class, or a plain
+            # module-level function (neither sees `self` unless it is handed it: then the caller's hooks treat the call
+            # as one that may move the wrapper's state, and it is not looked through)
+            unbound = self.unbound(h)
             ok = (not h.is_async and not a.vararg and not a.kwarg and not a.kwonlyargs and not a.posonlyargs
-                  and bool(a.args) and a.args[0].arg == 'self' and not h.is_setter()
+                  and (unbound or (bool(a.args) and a.args[0].arg == 'self')) and not h.is_setter()
                   and not any(isinstance(x, (ast.Yield, ast.YieldFrom, ast.Await, ast.While, ast.For, ast.AsyncFor, ast.Try, ast.With,
                                              ast.AsyncWith, ast.Global, ast.Nonlocal, ast.Delete)) for x in walk_self(h.node))
-                  and all(d == 'property' for d in h.decorators)
+                  and (h.decorators == ['staticmethod'] if (unbound and h.cls is not None) else all(d == 'property' for d in h.decorators))
+                  and (not unbound or not any(x.arg == 'self' for x in a.args))
                   and bool(self.accept(h)))
             self._ok[h.qual] = ok
         return self._ok[h.qual]
+
+    @staticmethod
+    def unbound(h: Func) -> bool:
+        """A @staticmethod or a module-level function: every parameter is an explicit argument."""
+        return (h.cls is None and h.parent is None) or 'staticmethod' in h.decorators
 
     def target(self, caller: Func, e, depth):
         """The helper a sub-expression stands for: ('call'|'prop', Func) or None."""
@@ -1787,6 +1891,12 @@ class Inliner:
             h = self.cls.methods.get(e.func.attr)
             if h is not None and not h.is_property() and self._inlinable(h) and not any(isinstance(a, ast.Starred) for a in e.args) \
                     and not any(k.arg is None for k in e.keywords):
+                return ('call', h)
+        elif isinstance(e, ast.Call) and isinstance(e.func, ast.Name) and not any(isinstance(a, ast.Starred) for a in e.args) \
+                and not any(k.arg is None for k in e.keywords) and not any(dotted(a) == 'self' for a in list(e.args) + [k.value for k in e.keywords]):
+            # a plain function of the caller's own module (k-style refactoring: a test / a clamp moved out of the class)
+            h = self.p.resolve_callable(caller, e.func)
+            if isinstance(h, Func) and h.cls is None and h.parent is None and h.module is caller.module and self._inlinable(h):
                 return ('call', h)
         elif isinstance(e, ast.Attribute) and isinstance(e.ctx, ast.Load) and dotted(e.value) == 'self':
             h = self.cls.methods.get(e.attr)
@@ -1835,7 +1945,7 @@ class Inliner:
 
     # -- the callee
     def inline(self, env: Env, caller: Func, site, kind, h: Func, depth):
-        params = [a.arg for a in h.node.args.args][1:]
+        params = [a.arg for a in h.node.args.args][(0 if self.unbound(h) else 1):]
         defaults = dict(zip(params[len(params) - len(h.node.args.defaults):], h.node.args.defaults)) if h.node.args.defaults else {}
         bound = {}
         if kind == 'call':
